@@ -289,6 +289,7 @@ type emitted struct {
 	Kind    string `json:"kind"`
 	Feature string `json:"feature"`
 	Data    hx.B   `json:"data"`
+	Dataout hx.B   `json:"dataout"`
 }
 
 func toB(n name) []hx.B {
@@ -1201,7 +1202,7 @@ func finish(eventsPath, emitPath, keysPath, verifyPath string) {
 			v := *e
 			v.Ev, v.Sig, v.Data, v.Sigok, v.Accepted = "verify", sig, m.Data, sigok, err == nil
 			if o := em[e.Of]; o != nil {
-				v.Odata, v.Osig = o.Data, osig[e.Of]
+				v.Odata, v.Osig = o.Dataout, osig[e.Of]
 			}
 			if err != nil {
 				v.Err = err.Error()
